@@ -226,7 +226,7 @@ Proof. exact env_requested_over_inherited. Qed.
 Print Assumptions c16_env_requested_over_inherited.
 
 (* LLBUILD_TASK_ID and LLBUILD_CONTROL_FD are the process's own, whatever is requested or inherited (full strength:
-   this is the statement that failed before the repair a51183e, see c16_env_unrepaired_refuted). *)
+   this is the statement that failed before the repair a51183e, see c16_env_v0_refuted). *)
 Theorem c16_env_process_ids_own : forall bid lid tid requested inherit base cfd,
   lookup K_TASK_ID (build_env bid lid tid requested inherit base cfd) = Some tid /\
   lookup K_CONTROL_FD (build_env bid lid tid requested inherit base cfd) = cfd.
@@ -243,11 +243,11 @@ Print Assumptions c16_env_child_view.
 (* The construction as it was before the repair: spawnProcess wrote LLBUILD_TASK_ID with setIfMissing after the
    unfiltered requested and inherited entries.  Witness: base environment containing LLBUILD_TASK_ID=z (what an llbuild
    started from an llbuild task inherits); kept in the check's corpus. *)
-Theorem c16_env_unrepaired_refuted :
+Theorem c16_env_v0_refuted :
   exists bid lid tid requested base,
-    lookup K_TASK_ID (build_env_unrepaired bid lid tid requested true base None) <> Some tid.
-Proof. exact env_unrepaired_refuted. Qed.
-Print Assumptions c16_env_unrepaired_refuted.
+    lookup K_TASK_ID (build_env_v0 bid lid tid requested true base None) <> Some tid.
+Proof. exact env_v0_refuted. Qed.
+Print Assumptions c16_env_v0_refuted.
 
 (* a requested key containing '=' yields two entries for one name in the child *)
 Theorem c16_env_unclean_key_refuted :
